@@ -455,6 +455,10 @@ pub struct HealthBehaviour {
     pub port: u16,
     /// health_check_port - port
     pub delta: i32,
+    /// another program already listens on the written health port (without SO_REUSEPORT): the written setting cannot
+    /// take effect, so start-up has to fail — a server that starts anyway does not run with the written value
+    #[serde(default)]
+    pub occupied: bool,
 }
 
 fn check_health_behaviour(ctx: &mut Ctx, b: &HealthBehaviour) -> Res {
@@ -493,10 +497,35 @@ fn check_health_behaviour(ctx: &mut Ctx, b: &HealthBehaviour) -> Res {
         _ => return Ok(()), // refusing is C15's business
     };
     // (the worker process has its own network namespace: every port number is free)
+    let squatter = if b.occupied { std::net::TcpListener::bind(("127.0.0.1", hc)).ok() } else { None };
+    if b.occupied && squatter.is_none() {
+        return Ok(());
+    }
     let mut lab = match Lab::with_config(cfg.as_ref(), 1) {
         Ok(l) => l,
-        Err(e) => return ctx.fail("server-new-failed", e),
+        Err(e) => {
+            if b.occupied {
+                // refused: fine
+                ctx.class(&format!("c16:health-behaviour:{}:port-occupied:refused", src));
+                ctx.nontrivial(&(b.via_env, b.port, b.delta, true));
+                return Ok(());
+            }
+            return ctx.fail("server-new-failed", e);
+        }
     };
+    if let Some(sq) = &squatter {
+        // the server started although somebody else owns the port: whoever connects reaches the other program
+        sq.set_nonblocking(true).unwrap();
+        let _probe = TcpStream::connect(("127.0.0.1", hc));
+        let _ = lab.step(&[], 0);
+        std::thread::sleep(Duration::from_millis(20));
+        if sq.accept().is_ok() {
+            return ctx.fail(
+                format!("effective-behaviour-differs-from-written|{}|health_check_port", src),
+                format!("{} source: health_check_port {} is held by another program; the configuration was accepted and the server started, but a connection to that port reaches the other program, not the server", src, hc),
+            );
+        }
+    }
     use std::io::Read;
     for attempt in 0..2 {
         let mut st = match TcpStream::connect(("127.0.0.1", hc)) {
@@ -529,7 +558,7 @@ pub fn run_c16(ctx: &mut Ctx) -> Vec<Violation> {
     // behavioural twin for the two settings whose effect is observable on the wire
     let mut beh = vec![];
     for via_env in [false, true] {
-        for (fault, bs) in [(0u8, 64u8), (1, 1), (10, 2), (25, 7), (49, 63), (50, 64), (50, 16), (0, 1), (0, 33)] {
+        for (fault, bs) in [(0u8, 64u8), (1, 1), (10, 2), (25, 7), (49, 63), (50, 64), (50, 16), (0, 1), (0, 33), (50, 2), (50, 4), (40, 3), (50, 1)] {
             beh.push(Behaviour { via_env, fault, batch_size: bs });
         }
     }
@@ -537,7 +566,10 @@ pub fn run_c16(ctx: &mut Ctx) -> Vec<Violation> {
     let mut hb = vec![];
     for via_env in [false, true] {
         for (port, delta) in [(8686u16, 0i32), (8686, 1), (8686, -1), (2002, 0), (65_535, 0), (65_534, 1), (1024, -1), (40_000, 256), (40_000, -256)] {
-            hb.push(HealthBehaviour { via_env, port, delta });
+            hb.push(HealthBehaviour { via_env, port, delta, occupied: false });
+        }
+        for (port, delta) in [(8686u16, 1i32), (8686, 0), (30_000, 7)] {
+            hb.push(HealthBehaviour { via_env, port, delta, occupied: true });
         }
     }
     out.extend(run_enum(ctx, "health-behaviour", hb.len() as u64, |i| hb[i as usize].clone(), |ctx, b| check_health_behaviour(ctx, b)));
@@ -650,7 +682,7 @@ fn check_config(ctx: &mut Ctx, c: &ConfigCase) -> Res {
         // example.cfg as shipped: port, interface, seed, health_check_port; workers default
         SrvCfg { seed_hex: seed_hex.clone(), health: true, ..Default::default() }
     } else {
-        SrvCfg { seed_hex: seed_hex.clone(), workers: c.workers.map(|w| w as u64), health: c.health, batch_size: c.batch_size.map(|b| b as u32), fault: c.fault.map(|f| f as u32), status_interval: c.status_interval.map(|s| s as u32), client_stats: c.stats, via_env: c.via_env, health_same_port: c.special == 3, extra: vec![], env_extra: vec![] }
+        SrvCfg { seed_hex: seed_hex.clone(), workers: c.workers.map(|w| w as u64), health: c.health, batch_size: c.batch_size.map(|b| b as u32), fault: c.fault.map(|f| f as u32), status_interval: c.status_interval.map(|s| s as u32), client_stats: c.stats, via_env: c.via_env, health_same_port: c.special == 3, extra: vec![], env_extra: vec![], inherit_ignored: vec![] }
     };
     if c.special == 2 {
         // make sure we really mirror the repository's file: same keys as /repo/example.cfg
@@ -764,8 +796,11 @@ fn check_config(ctx: &mut Ctx, c: &ConfigCase) -> Res {
         let bs = c.batch_size.map(|b| b as usize).unwrap_or(64);
         for round in 0..2u64 {
             let sock = UdpSocket::bind("127.0.0.1:0").unwrap();
-            let m = bs + 8;
+            // more than one batch; for small batch sizes more than sixteen batches (the worker handles a bounded
+            // number of batches per wake-up)
+            let m = if bs <= 4 { 16 * bs + 8 } else { bs + 8 };
             let mut reqs = vec![];
+            let mut queued_health: Vec<TcpStream> = vec![];
             // second round: the server is not scheduled while the burst arrives (stopped, then continued), so the
             // whole burst is queued on the socket when the worker next looks
             if round == 1 {
@@ -783,6 +818,14 @@ fn check_config(ctx: &mut Ctx, c: &ConfigCase) -> Res {
                 reqs.push(req);
             }
             if round == 1 {
+                // health connections made while the server is stopped sit in the accept queue behind the UDP backlog
+                if let Some(hc) = s.hc_port {
+                    for _ in 0..2 {
+                        if let Ok(st) = TcpStream::connect_timeout(&format!("127.0.0.1:{}", hc).parse().unwrap(), Duration::from_secs(2)) {
+                            queued_health.push(st);
+                        }
+                    }
+                }
                 std::thread::sleep(Duration::from_millis(20));
                 s.signal(libc::SIGCONT);
             }
@@ -812,6 +855,17 @@ fn check_config(ctx: &mut Ctx, c: &ConfigCase) -> Res {
             sock.set_nonblocking(true).unwrap();
             if sock.recv_from(&mut buf).is_ok() {
                 return ctx.fail("request-answered-twice", format!("{}: more replies than requests for a one-client burst", tag));
+            }
+            for (j, mut st) in queued_health.into_iter().enumerate() {
+                st.set_read_timeout(Some(Duration::from_secs(3))).unwrap();
+                let mut got = Vec::new();
+                let _ = st.read_to_end(&mut got);
+                if !health_ok(&got) {
+                    return ctx.fail(
+                        "health-no-response|queued-behind-request-backlog",
+                        format!("{}: health connection #{} was made while {} requests were queued for a stopped server; after it continued the requests were answered but the connection read {:?} within 3 s", tag, j, m, String::from_utf8_lossy(&got)),
+                    );
+                }
             }
         }
         ctx.class("c15:one-client-burst-with-non-requests");
@@ -1074,6 +1128,14 @@ pub struct Round {
     /// else's reply may suffer
     #[serde(default)]
     pub retransmit: bool,
+    /// 20 ms into the round the whole server process is stopped (SIGSTOP) and continued 30 ms later, as job control
+    /// or a debugger attach does: nothing may be lost, no worker may die
+    #[serde(default)]
+    pub pause: bool,
+    /// during the round another sender keeps sending valid requests whose replies cannot be delivered (UDP source
+    /// port 0): everybody else is still answered
+    #[serde(default)]
+    pub noise: bool,
 }
 
 struct ClientOutcome {
@@ -1199,6 +1261,32 @@ fn run_round(ctx: &mut Ctx, s: &mut ServerProc, r: &Round, round_no: u64) -> Res
             out
         }));
     }
+    // disturbances while the clients run
+    let round_over = Arc::new(AtomicBool::new(false));
+    let noise_thread = if r.noise {
+        let over = round_over.clone();
+        Some(std::thread::spawn(move || {
+            let mut sent = 0u64;
+            if let Some(raw) = crate::srvlab::Port0Sender::new() {
+                while !over.load(Ordering::Relaxed) {
+                    sent += 1;
+                    let proto = if sent % 2 == 0 { Proto::Classic } else { Proto::Ietf };
+                    raw.send(addr, &fresh_request(proto, b"c18-noise", sent ^ (round_no << 40)));
+                    std::thread::sleep(Duration::from_millis(2));
+                }
+            }
+            sent
+        }))
+    } else {
+        None
+    };
+    // (while the server is stopped everything queues up: only when all of it fits one worker's receive buffer)
+    if r.pause && n_clients <= 48 {
+        std::thread::sleep(Duration::from_millis(20));
+        s.signal(libc::SIGSTOP);
+        std::thread::sleep(Duration::from_millis(30));
+        s.signal(libc::SIGCONT);
+    }
     let mut keys = HashSet::new();
     let mut first_v = None;
     let mut done = 0;
@@ -1215,9 +1303,18 @@ fn run_round(ctx: &mut Ctx, s: &mut ServerProc, r: &Round, round_no: u64) -> Res
             first_v = o.violation;
         }
     }
+    round_over.store(true, Ordering::Relaxed);
+    if let Some(h) = noise_thread {
+        if h.join().unwrap_or(0) > 0 {
+            ctx.class("c18:round-with-unanswerable-noise");
+        }
+    }
+    if r.pause {
+        ctx.class("c18:round-with-stop-continue");
+    }
     ctx.evals(done);
     if let Some(v) = first_v {
-        return ctx.fail(v.sig, format!("workers={} clients={} mix={}: {}", r.workers, n_clients, r.mix, v.what));
+        return ctx.fail(v.sig, format!("workers={} clients={} mix={}{}{}: {}", r.workers, n_clients, r.mix, if r.pause { " stop/continue" } else { "" }, if r.noise { " with unanswerable noise" } else { "" }, v.what));
     }
     // midpoints outside [send, receive]: only meaningful if the realtime clock was not stepped during the round
     // (compared against the monotonic clock), and only when it happens repeatedly
@@ -1278,10 +1375,12 @@ fn check_campaign(ctx: &mut Ctx, c: &Campaign) -> Res {
     let mut rounds: Vec<Round> = vec![];
     if c.rounds.len() >= 2 {
         for mix in [0u8, 1] {
-            rounds.push(Round { workers: r0.workers, stats: r0.stats, clients: 64, mix, reqs: 40, think_us: 0, shared_nonces: false, batch_size: r0.batch_size, retransmit: false });
+            rounds.push(Round { workers: r0.workers, stats: r0.stats, clients: 64, mix, reqs: 40, think_us: 0, shared_nonces: false, batch_size: r0.batch_size, retransmit: false, pause: false, noise: false });
         }
+        // a round during which the server is stopped and continued and unanswerable requests keep arriving
+        rounds.push(Round { workers: r0.workers, stats: r0.stats, clients: 16, mix: 3, reqs: 60, think_us: 0, shared_nonces: false, batch_size: r0.batch_size, retransmit: false, pause: true, noise: true });
         // and one round of 32 impatient clients (every third request sent twice), protocols alternating per request
-        rounds.push(Round { workers: r0.workers, stats: r0.stats, clients: 32, mix: 3, reqs: 40, think_us: 0, shared_nonces: false, batch_size: r0.batch_size, retransmit: true });
+        rounds.push(Round { workers: r0.workers, stats: r0.stats, clients: 32, mix: 3, reqs: 40, think_us: 0, shared_nonces: false, batch_size: r0.batch_size, retransmit: true, pause: false, noise: false });
     }
     rounds.extend(c.rounds.iter().cloned());
     for (i, r) in rounds.iter().enumerate() {
@@ -1295,8 +1394,8 @@ fn check_campaign(ctx: &mut Ctx, c: &Campaign) -> Res {
 }
 
 fn round_strategy(workers: u8) -> impl Strategy<Value = Round> {
-    (prop::bool::weighted(0.15), prop_oneof![1 => Just(1u8), 3 => 2u8..=16, 2 => 17u8..=64], 0u8..4, prop_oneof![3 => 20u16..=80, 1 => 80u16..=300], prop_oneof![2 => Just(0u16), 1 => 0u16..=2000], any::<bool>(), prop::sample::select(vec![1u8, 2, 8, 64]), prop::bool::weighted(0.35))
-        .prop_map(move |(stats, clients, mix, reqs, think_us, shared_nonces, batch_size, retransmit)| Round { workers, stats, clients, mix, reqs, think_us, shared_nonces, batch_size, retransmit })
+    (prop::bool::weighted(0.15), prop_oneof![1 => Just(1u8), 3 => 2u8..=16, 2 => 17u8..=64], 0u8..4, prop_oneof![3 => 20u16..=80, 1 => 80u16..=300], prop_oneof![2 => Just(0u16), 1 => 0u16..=2000], any::<bool>(), prop::sample::select(vec![1u8, 2, 8, 64]), prop::bool::weighted(0.35), prop::bool::weighted(0.2), prop::bool::weighted(0.2))
+        .prop_map(move |(stats, clients, mix, reqs, think_us, shared_nonces, batch_size, retransmit, pause, noise)| Round { workers, stats, clients, mix, reqs, think_us, shared_nonces, batch_size, retransmit, pause, noise })
 }
 
 pub fn run_c18(ctx: &mut Ctx) -> Vec<Violation> {
@@ -1320,9 +1419,20 @@ pub fn c11_burst_part(ctx: &mut Ctx) -> Vec<Violation> {
     let t = ctx.tier;
     let plans: Vec<Campaign> = [(1u8, 2u8, 24u8), (1, 8, 48), (2, 1, 16), (4, 64, 64)]
         .iter()
-        .map(|(workers, batch_size, clients)| Campaign { rounds: vec![Round { workers: *workers, stats: false, clients: *clients, mix: 0, reqs: t.pick(120, 600), think_us: 0, shared_nonces: false, batch_size: *batch_size, retransmit: false }] })
+        .map(|(workers, batch_size, clients)| Campaign { rounds: vec![Round { workers: *workers, stats: false, clients: *clients, mix: 0, reqs: t.pick(120, 600), think_us: 0, shared_nonces: false, batch_size: *batch_size, retransmit: false, pause: false, noise: false }] })
         .collect();
     run_enum(ctx, "burst-real-binary", plans.len() as u64, |i| plans[i as usize].clone(), |ctx, c| check_campaign(ctx, c))
+}
+
+/// C02's use of the same machinery: "every response verifies" also when several workers sign at the same moment
+/// (the in-process lab is single-threaded and cannot show what concurrent workers do to each other)
+pub fn c02_process_part(ctx: &mut Ctx) -> Vec<Violation> {
+    let t = ctx.tier;
+    let plans: Vec<Campaign> = [(6u8, 64u8, 24u8, 3u8), (4, 8, 32, 0), (8, 2, 16, 1), (16, 64, 48, 3)]
+        .iter()
+        .map(|(workers, batch_size, clients, mix)| Campaign { rounds: vec![Round { workers: *workers, stats: false, clients: *clients, mix: *mix, reqs: t.pick(150, 1_500), think_us: 0, shared_nonces: false, batch_size: *batch_size, retransmit: false, pause: false, noise: false }] })
+        .collect();
+    run_enum(ctx, "multi-worker-real-binary", plans.len() as u64, |i| plans[i as usize].clone(), |ctx, c| check_campaign(ctx, c))
 }
 
 pub fn replay_c18(ctx: &mut Ctx, _sub: &str, case: &Value) -> Res {
@@ -1362,13 +1472,22 @@ pub struct SignalPlan {
     /// the moment all worker threads exist
     #[serde(default)]
     pub early: bool,
+    /// how the server was started: 0 = default signal dispositions; 1 = SIGHUP inherited as ignored (nohup);
+    /// 2 = SIGINT and SIGQUIT inherited as ignored (background job of a non-interactive shell; only SIGTERM plans)
+    #[serde(default)]
+    pub started_by: u8,
 }
 
 fn check_signal(ctx: &mut Ctx, p: &SignalPlan) -> Res {
     ctx.eval();
     // at most two flood plans at a time on this host (each keeps up to ~10 threads busy)
     let _slot = if matches!(p.load, Load::Flood(..)) { host_slot("flood", 2, Duration::from_secs(180)) } else { None };
-    let cfg = SrvCfg { seed_hex: GOOD_SEED.into(), workers: Some(p.workers as u64), client_stats: p.stats, status_interval: p.status_interval.map(|x| x as u32), ..Default::default() };
+    let inherit_ignored = match p.started_by % 3 {
+        1 => vec![libc::SIGHUP],
+        2 if p.term => vec![libc::SIGINT, libc::SIGQUIT],
+        _ => vec![],
+    };
+    let cfg = SrvCfg { seed_hex: GOOD_SEED.into(), workers: Some(p.workers as u64), client_stats: p.stats, status_interval: p.status_interval.map(|x| x as u32), inherit_ignored, ..Default::default() };
     let mut s = match ServerProc::start(&cfg) {
         Ok(s) => s,
         Err(e) => {
@@ -1454,7 +1573,9 @@ fn check_signal(ctx: &mut Ctx, p: &SignalPlan) -> Res {
                     let valid = fresh_request(Proto::Classic, b"c19f", c as u64);
                     // invalid datagrams: junk that is rejected at the first header word, or requests that parse all the
                     // way and fail late (classic request with a 60-byte nonce, IETF request naming another server)
-                    let invalid = match kind % 6 {
+                    // kind 6: VALID requests from UDP source port 0 — accepted, signed, and the reply cannot be sent
+                    let raw = if kind % 7 == 6 { crate::srvlab::Port0Sender::new() } else { None };
+                    let invalid = match kind % 7 {
                         5 => {
                             // every known tag once (SIG..PAD), NONC of the right length, SRV of another server
                             let mut m = Msg::new();
@@ -1505,12 +1626,19 @@ fn check_signal(ctx: &mut Ctx, p: &SignalPlan) -> Res {
                     };
                     while !stop.load(Ordering::Relaxed) {
                         n += 1;
-                        let d = match kind % 6 {
-                            0 => &valid,
+                        let d = match kind % 7 {
+                            0 | 6 => &valid,
                             2 => if n % 2 == 0 { &valid } else { &invalid },
                             _ => &invalid,
                         };
-                        let _ = sock.send_to(d, addr);
+                        match &raw {
+                            Some(r) => {
+                                r.send(addr, d);
+                            }
+                            None => {
+                                let _ = sock.send_to(d, addr);
+                            }
+                        }
                     }
                     if let Some(r) = reader {
                         let _ = r.join();
@@ -1567,7 +1695,7 @@ fn check_signal(ctx: &mut Ctx, p: &SignalPlan) -> Res {
         Load::Idle => "idle".to_string(),
         Load::Closed(k) => format!("closed-loop x{}", k),
         Load::ThenIdle(k) => format!("closed-loop x{} for 300 ms, then idle", k),
-        Load::Flood(k, kind) => format!("flood x{} ({})", k, ["valid", "junk", "mixed", "requests with a wrong-length nonce", "requests for another server", "requests for another server carrying every known tag"][(*kind % 6) as usize]),
+        Load::Flood(k, kind) => format!("flood x{} ({})", k, ["valid", "junk", "mixed", "requests with a wrong-length nonce", "requests for another server", "requests for another server carrying every known tag", "valid requests from source port 0 (replies cannot be sent)"][(*kind % 7) as usize]),
     };
     let tag = format!("workers={} stats={} status_interval={:?} {} load={} delay={}ms", p.workers, p.stats, p.status_interval, sigs, load_s, p.delay_ms);
     let load_class = match &p.load {
@@ -1624,33 +1752,40 @@ fn c19_grid() -> Vec<SignalPlan> {
         for term in [false, true] {
             for load in [Load::Idle, Load::Closed(4), Load::Flood(4, 0), Load::Flood(3, 1), Load::Closed(16), Load::Flood(6, 2), Load::Flood(6, 3), Load::Flood(5, 4)] {
                 i += 1;
-                out.push(SignalPlan { workers, stats: i % 5 == 0, term, load, delay_ms: delays[i % delays.len()], status_interval: [None, Some(10), Some(1)][i % 3], early: false });
+                out.push(SignalPlan { workers, stats: i % 5 == 0, term, load, delay_ms: delays[i % delays.len()], status_interval: [None, Some(10), Some(1)][i % 3], early: false, started_by: 0 });
             }
         }
     }
     // signal after the server has been idle for a while (seconds since start-up / since the last request)
-    out.push(SignalPlan { workers: 1, stats: false, term: true, load: Load::Idle, delay_ms: 3_600, status_interval: None, early: false });
-    out.push(SignalPlan { workers: 4, stats: false, term: false, load: Load::ThenIdle(3), delay_ms: 4_200, status_interval: None, early: false });
-    out.push(SignalPlan { workers: 4, stats: true, term: true, load: Load::Idle, delay_ms: 6_500, status_interval: Some(600), early: false });
+    out.push(SignalPlan { workers: 1, stats: false, term: true, load: Load::Idle, delay_ms: 3_600, status_interval: None, early: false, started_by: 0 });
+    out.push(SignalPlan { workers: 4, stats: false, term: false, load: Load::ThenIdle(3), delay_ms: 4_200, status_interval: None, early: false, started_by: 0 });
+    out.push(SignalPlan { workers: 4, stats: true, term: true, load: Load::Idle, delay_ms: 6_500, status_interval: Some(600), early: false, started_by: 0 });
     // floods made only of datagrams that are expensive to reject, against a single worker (every sender lands on it)
     for (k, (term, delay_ms, stats)) in [(true, 100u16, false), (false, 30, false), (true, 250, true)].iter().enumerate() {
-        out.push(SignalPlan { workers: 1, stats: *stats, term: *term, load: Load::Flood(8, 5), delay_ms: *delay_ms, status_interval: [None, Some(1), Some(10)][k], early: false });
+        out.push(SignalPlan { workers: 1, stats: *stats, term: *term, load: Load::Flood(8, 5), delay_ms: *delay_ms, status_interval: [None, Some(1), Some(10)][k], early: false, started_by: 0 });
     }
-    out.push(SignalPlan { workers: 4, stats: false, term: true, load: Load::Flood(12, 5), delay_ms: 60, status_interval: None, early: false });
+    out.push(SignalPlan { workers: 4, stats: false, term: true, load: Load::Flood(12, 5), delay_ms: 60, status_interval: None, early: false, started_by: 0 });
+    // floods of valid requests whose replies cannot be sent
+    out.push(SignalPlan { workers: 1, stats: false, term: true, load: Load::Flood(6, 6), delay_ms: 150, status_interval: None, early: false, started_by: 0 });
+    out.push(SignalPlan { workers: 4, stats: true, term: false, load: Load::Flood(6, 6), delay_ms: 80, status_interval: Some(1), early: false, started_by: 0 });
+    // the server was started under nohup (SIGHUP ignored) or as a background job of a script (SIGINT, SIGQUIT ignored)
+    for (k, (workers, term, started_by, load)) in [(1u8, true, 1u8, Load::Idle), (4, false, 1, Load::Closed(4)), (4, true, 2, Load::Idle), (1, true, 2, Load::Closed(2)), (16, false, 1, Load::Idle)].into_iter().enumerate() {
+        out.push(SignalPlan { workers, stats: k == 3, term, load, delay_ms: 40 * k as u16, status_interval: None, early: false, started_by });
+    }
     // signal right after the first response, while the other workers of a 16-worker server are still starting
     for (k, delay_ms) in [0u16, 1, 2, 5, 10, 20, 40, 80].iter().enumerate() {
-        out.push(SignalPlan { workers: 16, stats: k % 4 == 3, term: k % 2 == 0, load: Load::Idle, delay_ms: *delay_ms, status_interval: None, early: true });
+        out.push(SignalPlan { workers: 16, stats: k % 4 == 3, term: k % 2 == 0, load: Load::Idle, delay_ms: *delay_ms, status_interval: None, early: true, started_by: 0 });
     }
     out
 }
 
 fn c19_random() -> impl Strategy<Value = SignalPlan> {
-    let load = prop_oneof![1 => Just(Load::Idle), 3 => (1u8..=24).prop_map(Load::Closed), 3 => (2u8..=10, 0u8..6).prop_map(|(k, kind)| Load::Flood(k, kind)), 1 => (1u8..=8).prop_map(Load::ThenIdle)];
+    let load = prop_oneof![1 => Just(Load::Idle), 3 => (1u8..=24).prop_map(Load::Closed), 3 => (2u8..=10, 0u8..7).prop_map(|(k, kind)| Load::Flood(k, kind)), 1 => (1u8..=8).prop_map(Load::ThenIdle)];
     (prop::sample::select(vec![1u8, 4, 16]), prop::bool::weighted(0.2), any::<bool>(), load, prop_oneof![2 => 0u16..=300, 1 => 90u16..=110, 1 => Just(0u16), 1 => 950u16..=1100], 0u16..=12_000, prop::sample::select(vec![None, Some(600u16), Some(10), Some(1)])).prop_map(|(workers, stats, term, load, delay_ms, long, status_interval)| {
         // idle shapes also sweep long idle periods (most of them short, some up to 12 s)
         let delay_ms = if matches!(load, Load::Idle | Load::ThenIdle(_)) && long % 3 == 0 { long } else { delay_ms };
         let early = matches!(load, Load::Idle) && delay_ms <= 100 && long % 2 == 0;
-        SignalPlan { workers, stats, term, load, delay_ms, status_interval, early }
+        SignalPlan { workers, stats, term, load, delay_ms, status_interval, early, started_by: (long % 7 == 1) as u8 + 2 * (long % 7 == 2) as u8 }
     })
 }
 
